@@ -23,7 +23,7 @@ def run(tier, seed):
         if tier == 'thorough':
             v += [dict(bursts=[(1, 130), (2, 130)], pad=4089, exitcode=0), dict(bursts=[(1, 1), (2, 1)] * 120, pad=4089, exitcode=0),   # ~1 MiB
                   dict(bursts=[(1, 5), (2, 5)], sig=24), dict(bursts=[(1, 40)], pad=100, exitcode=7)]
-            for _ in range(12):
+            for _ in range(60):
                 v.append(dict(bursts=[(rnd.choice([1, 2]), rnd.randint(1, 30)) for _ in range(rnd.randint(1, 12))], pad=rnd.choice([0, 0, 100, 1000, 4089]), exitcode=rnd.choice([0, 1, 2, 42, 255])))
         else:
             for _ in range(2):
